@@ -443,7 +443,13 @@ func (vc *VC) contractCall(fr *Frame, st *State, callee *ssa.Function, cc *FuncC
 	} else if len(cc.ObjInv) > 0 {
 		vc.assume("object invariants of " + cc.Pkg + " types are hidden from other packages: they hold whenever control is outside that package (fields unexported; every method under contract re-establishes them)")
 	}
+	if vc.fc != nil && vc.fc.NoCallPre {
+		vc.assume("OPEN: callee preconditions are not checked inside " + vc.fc.Key + " (declared nocallpre); its calls' panic-freedom is not established")
+	}
 	for i, r := range cc.Requires {
+		if vc.fc != nil && vc.fc.NoCallPre {
+			break
+		}
 		t, err := vc.specBoolAt(cf, pre, pre, r, nil)
 		if err != nil {
 			vc.unsupportedf("requires %d of %s at call from %s: %v", i+1, cc.Key, fr.fn.Name(), err)
@@ -643,6 +649,13 @@ func (vc *VC) modInstr(fn *ssa.Function, in ssa.Instruction, out map[string]bool
 		vc.modCall(fn, x.Common(), out, depth, addAll)
 	case *ssa.Go:
 		vc.modCall(fn, x.Common(), out, depth, addAll)
+	case *ssa.Next:
+		for k := range vc.svSort {
+			if strings.HasPrefix(k, "G_iterpos_") {
+				out[k] = true
+			}
+		}
+		out["G_iterpos_*"] = true
 	case *ssa.Select, *ssa.Send:
 		out["G_events"] = true
 	}
